@@ -599,6 +599,10 @@ def check_C08(tier, seed):
     n, k = sizes(tier, (60, 4), (700, 5))
     progs = F.random_general(seed, n, 100, k=k, nsets=(2, 2, 3), nrules=(1, 2, 2, 3),
                              menu_sizes=(1, 2), p_fal=0.1, letters=(F.A, F.B), sigma=(F.A, F.B, 120))
+    # rules with right contexts: a failed context in a state without transitions must not read on
+    progs += F.random_general(seed + 5, n // 2, 3000, k=k, nsets=(1, 2), nrules=(1, 2, 3), p_ctx=0.6,
+                              menu_sizes=(1, 2), p_fal=0.0, letters=(F.A, F.B), sigma=(F.A, F.B, 120),
+                              depth=1)
     progs += F.join_templates(seed + 2, n // 2, 6000, k=k + 2, p_eoi=0.2, nsets=(2, 2, 3), p_ctx=0.3)
     return generic_replay_check(
         "C08", tier, progs, proj_c08,
